@@ -276,7 +276,7 @@ def make_hooks(run, hyp, GeometryError):
                                   {"workload_case": case, "unit": k, "ideal_basis": iu[k],
                                    "reflection": Ru[k]})
 
-    attach.wrap_attr(run, hyp.Subspace, "reflection_across", hook_reflection)
+    attach.wrap_attr(run, hyp.Subspace, "reflection_across", hook_reflection, overrides=True)
 
     # -- from_reflection --------------------------------------------------------
     def reflection_argument(arg):
@@ -1296,7 +1296,60 @@ def wl_repo_tests(run, rng, idx):
         run.note_class("repo-tests", "test_hyperbolic.py")
 
 
+def wl_wall_histories(run, rng, idx):
+    """query, transform (or assign an item), query again: the reflection asked
+    of g @ H after H.reflection_across(), and of a composite after one of its
+    walls was replaced, is the reflection across the *current* wall (seeded
+    change C15-r2-3: a reflection cached on the object and carried along by
+    apply's shallow copy / not invalidated by item assignment).  Judged by the
+    reflection-across postcondition and against the reference reflection."""
+    from geometry_tools.hyperbolic import Hyperplane, Isometry
+    rt = run.monitor("roundtrip")
+    n = 2 + idx % 3
+    which = ["transform", "setitem"][(idx // 3) % 2]
+    if which == "transform":
+        shape = [(), (3,)][(idx // 6) % 2]
+        v = rand_normals(rng, n, shape, "bulk")
+        arg = v[..., None, :].copy() if shape else v.copy()
+        A = rh.rand_isometry(rng, n, tmax=1.0)
+        case = {"dimension": n, "shape": list(shape), "history": "reflect, transform, reflect",
+                "normals": v, "isometry": A}
+        run.current_case = case
+        H = Hyperplane(arg)
+        H.reflection_across()
+        g = Isometry(A, column_vectors=True)
+        H2 = g @ H
+        R2 = H2.reflection_across()
+        # normal of g(H): n' with <n', A x> = <n, x>  =>  n' = n J A^-1 J (row convention)
+        Jm = rh.J(n + 1)
+        v2 = v @ Jm @ np.linalg.inv(A) @ Jm
+    else:
+        k = 3
+        v = rand_normals(rng, n, (k,), "bulk")
+        vnew = rand_normals(rng, n, (), "bulk")
+        case = {"dimension": n, "history": "reflect, set item, reflect", "normals": v,
+                "new_normal": vnew}
+        run.current_case = case
+        H2 = Hyperplane(v[:, None, :].copy())
+        H2.reflection_across()
+        H2[1] = Hyperplane(vnew.copy())
+        R2 = H2.reflection_across()
+        v2 = v.copy()
+        v2[1] = vnew
+    b = np.asarray(R2.proj_data, dtype=float)
+    Ru = _units(b, 2)
+    vu = _units(v2, 1)
+    q = ri.qrel(vu)
+    err = max(ri.maxabs(Ru[j] - ri.reflection_matrix_row(vu[j])) / max(1.0, ri.maxabs(Ru[j]))
+              for j in range(len(vu)))
+    rt.judge(err, 10 * TOL / float(np.min(q)), "roundtrip/reflection-after-%s-differs-from-reference" % which,
+             "reflection_across() asked again after a %s is not the reflection in the current wall"
+             % which, case)
+    run.note_class("wall-history", n, which)
+
+
 WORKLOADS = [
+    Workload("wall-histories", wl_wall_histories, quick=60, thorough=1800),
     Workload("walls", wl_walls, quick=450, thorough=20000),
     Workload("ideal-walls", wl_ideal_walls, quick=135, thorough=6000),
     Workload("coxeter-reflections", wl_coxeter, quick=96, thorough=2880),
